@@ -273,6 +273,7 @@ type Machine struct {
 	vstack       []Value // registers and non-escaping locals of the live frames
 	sp           int
 	ufFacts      []*sym.Term
+	ufFactSet    map[*sym.Term]bool
 	modelRefuted bool
 	trackGlobals bool
 	gStores      []string
@@ -631,8 +632,19 @@ func (m *Machine) model(extra *sym.Term) ([]ReplayVal, []string, bool) {
 					} else {
 						rc = m.Ctx.BV(app.W, real)
 					}
-					m.ufFacts = append(m.ufFacts, m.Ctx.Eq(m.Ctx.UF(app.Name, app.W, cargs...), rc))
-					m.Stats.UFFacts++
+					fact := m.Ctx.Eq(m.Ctx.UF(app.Name, app.W, cargs...), rc)
+					if !m.ufFactSet[fact] {
+						if m.ufFactSet == nil {
+							m.ufFactSet = map[*sym.Term]bool{}
+						}
+						m.ufFactSet[fact] = true
+						m.ufFacts = append(m.ufFacts, fact)
+						if len(m.ufFacts) > 400 { // keep the conjunction small: forget the oldest facts
+							delete(m.ufFactSet, m.ufFacts[0])
+							m.ufFacts = m.ufFacts[1:]
+						}
+						m.Stats.UFFacts++
+					}
 					added = true
 				}
 			}
